@@ -16,6 +16,7 @@ import KcpVerif.Lemmas.SysDrainReturn2
 import KcpVerif.Lemmas.SysDrainTimer2
 import KcpVerif.Lemmas.SysDrainHead3
 import KcpVerif.Lemmas.SysDrainOrder
+import KcpVerif.Lemmas.SysDrainHead4
 /-! C02 — eventual delivery: a healed network always drains the backlog. -/
 namespace KcpVerif.Props
 open KcpVerif KcpVerif.Gen KcpVerif.Kcp KcpVerif.Live
@@ -1032,5 +1033,25 @@ example : (∃ gab gba, SysC.Cons ⟨SysC.wedgeA.snd_nxt, SysC.wedgeA.conv, 0, 0
   ⟨SysC.cons_side_netRun c02LostPush _ [] [] (SysC.cons_init _ _ 0 1000 false false (by decide))
       (SysC.side_init _ _ 0 1000 false false (by decide)) (by decide),
    by decide, by decide, by decide, by decide, by decide, ⟨by decide, by decide⟩⟩
+
+open KcpVerif.Sys KcpVerif.SysC in
+/-- **`C02_progress_step` for EVERY head**: as `C02_progress_step`, but the head may also be a segment
+that has never been sent (`xmit = 0`: admitted by an ACK-only flush) — the next FULL flush of A, at or
+before `T1`, transmits it whatever the time (take `R = now`).  `P1G`, Lemmas/SysDrainHead4.lean. -/
+theorem C02_progress_step_every_head {p : Par} {s : State} {gab gba : GLink} (h : Cons p s gab gba) (hs : Side p.base s)
+    (hq : s.B.rcv_queue.length < s.B.rcv_wnd.toNat) (x : Seg) (rest : List Seg) (hb : s.A.snd_buf = x :: rest)
+    (R T1 IA IB : Nat) (hx : x.xmit = 0 ∨ (x.xmit ≠ 0 ∧ x.resendts = clk R)) (hT : R + IA ≤ T1 ∧ T1 < R + 2 ^ 31)
+    (hiv : s.A.interval.toNat = IA) (hnf : s.nfA ≤ T1) (hnw : s.now ≤ T1) (ht : Tm IB s)
+    (evs : List Ev) (hsm : RunSmallH p.base s evs) (hnow : T1 + s.D + IB + s.D < (Sys.run s evs).now) :
+    o p.base x.sn < o p.base (Sys.run s evs).A.snd_una := by
+  have hhl : s.A.snd_una = x.sn := by
+    have := hs.live.1
+    unfold Live.HeadLive at this
+    rw [hb] at this
+    exact this.2
+  have hrb : o p.base x.sn ≤ o p.base s.B.rcv_nxt := by
+    rw [← hhl]; exact not_behind h hs.srt hs.fix hq
+  exact retG3_done h hs.live (o p.base x.sn) R T1 IA IB hT ht
+    ⟨⟨x, rest, hb, rfl, hx⟩, hiv, hnf, hnw, hrb⟩ evs hsm hnow
 
 end KcpVerif.Props
